@@ -43,7 +43,38 @@ def h18b_quoted_not_split(s):
                 assert not items[i + 1].value.startswith('"')
         if v.startswith("'"):
             assert len(v) >= 2 and v.endswith("'")
+            check_quoted_names(v)
+            if i + 1 < len(items):
+                # a quote right after the closing quote would have been an escaped quote inside the name
+                assert not items[i + 1].value.startswith("'")
     assert "".join([t.value for t in items]) == s
+
+
+def check_quoted_names(v):
+    """independent reader of a single-quoted token: one quoted name ('' is an escaped quote), optionally followed by
+    further quoted names separated by a colon with optional white space - and nothing else"""
+    n = len(v)
+    j = 0
+    while True:
+        assert j < n and v[j] == "'"
+        j += 1
+        while True:
+            assert j < n                      # the closing quote exists
+            if v[j] == "'":
+                if j + 1 < n and v[j + 1] == "'":
+                    j += 2                    # escaped quote
+                    continue
+                j += 1
+                break
+            j += 1
+        if j == n:
+            return
+        while j < n and v[j] in " \t\n\r\f\v":
+            j += 1
+        assert j < n and v[j] == ":"
+        j += 1
+        while j < n and v[j] in " \t\n\r\f\v":
+            j += 1
 
 
 def h18c_reader_output(s, low, op, fid, wrap):
@@ -86,6 +117,16 @@ def _mkq(n):
                    bounds=f"every string of exactly {n} characters over the alphabet \" ' a + : space ( )")
 
 
+NAME_ALPHABET_Q = [(39, 39), (58, 58), (97, 97)]                 # ' : a
+NAME_ALPHABET_T = [(39, 39), (58, 58), (97, 97), (32, 32)]       # ' : a space
+
+
+def _mkn(n, thorough=False):
+    return Harness(f"H18b-names-n{n}", h18b_quoted_not_split, dict(s=StrDom(n, NAME_ALPHABET_T if thorough else NAME_ALPHABET_Q)),
+                   bounds=f"every string of exactly {n} characters over the alphabet ' : a" + (" space" if thorough else "") +
+                          " (quoted names and quoted ranges with escaped quotes in any end point)")
+
+
 def _mkc(n):
     from pysym.api import BoolDom, IntDom
     return Harness(f"H18c-n{n}", h18c_reader_output,
@@ -99,7 +140,8 @@ def harnesses(tier):
     ns = [0, 1, 2, 3]       # n = 4 (x22 paths) did not finish within 20 minutes on 16 cores: outside the claim
     qs = [4, 5]
     cs = [1] if tier == "quick" else [1, 2]
-    return [_mk(n) for n in ns] + [_mkq(n) for n in qs] + [_mkc(n) for n in cs]
+    names = [_mkn(7)] if tier == "quick" else [_mkn(7), _mkn(8, True)]
+    return [_mk(n) for n in ns] + [_mkq(n) for n in qs] + names + [_mkc(n) for n in cs]
 
 
 HARNESSES = harnesses("thorough")
